@@ -398,8 +398,26 @@ func genC17(r *Rng, idx int, tier string) *Scenario {
 		sent = append(sent, id)
 		froms = append(froms, st.From)
 	}
+	burstAt, burstLen := -1, 0
+	if r.Chance(1, 6) {
+		burstAt, burstLen = r.Intn(n), Pick(r, 15, 16, 17, 32, 40)
+	}
 	for i := 0; i < n; i++ {
 		x := r.Intn(total)
+		if i == burstAt && burstLen > 0 {
+			// a run of consecutive forgeries with no accepted message in between (lock-out counters)
+			if len(sent) == 0 {
+				send("twin", false)
+			}
+			k := r.Intn(len(sent))
+			role := other(froms[k])
+			for b := 0; b < burstLen; b++ {
+				sc.Steps = append(sc.Steps, Step{Op: "deliver", Dgram: sent[k], To: role, Rx: genRx(r), Obj: "long",
+					Fault: &Fault{Kind: "bitflip", Byte: 28 + r.Intn(30), Bit: r.Intn(8)}})
+			}
+			sc.Steps = append(sc.Steps, Step{Op: "deliver", Dgram: sent[k], To: role, Rx: genRx(r), Obj: "long"})
+			continue
+		}
 		switch {
 		case x < wProtect:
 			send(Pick(r, "long", "long", "long", "peer"), false)
